@@ -221,7 +221,7 @@ def main():
     ck.set("traces_validated_against_impl", sA["edges"] + sB["edges"] + sH["behaviours"])
     ck.set("exhaustive", True)
     ck.set("bounds", {"A": "1 context x 3 modes x 2 scripts x 2 classes x 3 handles x 122 class expressions x 5 on-attribute sequences x WithNonce applied 0/1 times at any point",
-                      "B": "2 contexts x 9 mode combinations x 1 script x 1 class x 2 handles x WithNonce applied 0/1 times per context at any point",
+                      "B": "2 contexts x 9 mode combinations x 1 script x 1 class x 2 handles x WithNonce applied 0/1 times to the first context at any point",
                       "simulation": "%d histories of 40 steps, 2 contexts, all ids, all forms, up to 2 WithNonce per context at random points" % num,
                       "mcFull_history_length": 6 if thorough else None})
     ck.set("rule", "every transition of the reachable registry graphs A and B, each from its source state re-established on the real "
